@@ -208,6 +208,10 @@ impl Walrus {
             let mut info = info_arc.write().map_err(|_| {
                 io::Error::new(io::ErrorKind::Other, "col info write lock poisoned")
             })?;
+            // When this reader is already positioned in the active block, its progress there is
+            // tracked in memory and persisted by the commits below: the block start must not be
+            // persisted over it again
+            let tail_known = info.tail_block_id == active_block.id;
             if let Some((tail_block_id, tail_off)) = persisted_tail {
                 if tail_block_id != active_block.id {
                     if let Some(idx) = info
@@ -236,7 +240,7 @@ impl Walrus {
                     } else {
                         // rebase tail to current active block at 0
                         persisted_tail = Some((active_block.id, 0));
-                        if checkpoint {
+                        if checkpoint && !tail_known {
                             if self.should_persist(&mut info, true) {
                                 if let Ok(mut idx_guard) = self.read_offset_index.write() {
                                     let _ = idx_guard.set(
@@ -252,7 +256,7 @@ impl Walrus {
             } else {
                 // No persisted tail; init at current active block start
                 persisted_tail = Some((active_block.id, 0));
-                if checkpoint {
+                if checkpoint && !tail_known {
                     if self.should_persist(&mut info, true) {
                         if let Ok(mut idx_guard) = self.read_offset_index.write() {
                             let _ =
